@@ -192,6 +192,10 @@ EXPORT errno_t _wcstombs_s_chk(size_t *restrict retvalp, char *restrict dest,
     }
 
     /* l is the strlen, excluding NULL */
+    /* never let libc store more than dmax bytes */
+    if (dest && len > dmax) {
+        len = dmax;
+    }
     l = *retvalp = wcstombs(dest, src, len);
 
     if (likely(l > 0 && (rsize_t)l < dmax)) {
